@@ -225,11 +225,11 @@ theorem contentLoop_header (hv ord : Bool) : ∀ (h b t : List TV), ValuesOK hv 
         have h3 := trailer_not_header h2
         simp only [List.nil_append, fieldContentLoop, h1, h3]
         simp
-        exact contentLoop_trailer hv ord r false hval.tail (fun g hg => htr g (List.mem_cons_of_mem _ hg))
+        exact contentLoop_trailer hv ord r _ hval.tail (fun g hg => htr g (List.mem_cons_of_mem _ hg))
     | cons f r =>
       have h1 := hval f (List.mem_cons_self ..)
-      have ⟨h2, _⟩ := hb f (List.mem_cons_self ..)
-      simp only [List.nil_append, List.cons_append, fieldContentLoop, h1, h2]
+      have ⟨h2, h2t⟩ := hb f (List.mem_cons_self ..)
+      simp only [List.nil_append, List.cons_append, fieldContentLoop, h1, h2, h2t]
       simp
       exact contentLoop_body hv ord r t hval.tail (fun g hg => hb g (List.mem_cons_of_mem _ hg)) htr
   | cons f r ih =>
